@@ -15,6 +15,7 @@
 package c11
 
 import (
+	"io"
 	"context"
 	"encoding/json"
 	"fmt"
@@ -717,6 +718,35 @@ func harnessB(cfgJSON json.RawMessage) sched.Harness {
 			}
 			img = w.Intended
 		}
+		if cfg.Inner == "export-hot" {
+			// An application died in the middle of a rollback-journal transaction on the primary: pages already
+			// overwritten in the file, a valid journal next to it. The export must roll that journal back first.
+			hc := pager.NewConn(P.M, "db", 42, ps)
+			func() {
+				defer func() {
+					if p := recover(); p != nil {
+						if _, ok := p.(pager.Abort); !ok {
+							panic(p)
+						}
+					}
+				}()
+				wrote := false
+				hc.Before = func(step int, desc string) {
+					if wrote {
+						panic(pager.Abort{Step: step})
+					}
+					if strings.HasPrefix(desc, "db write page") {
+						wrote = true
+					}
+				}
+				hc.RunRTx(pager.RTx{Mods: []uint32{2, 3}, SpillAfter: []int{1}, Final: "DELETE", Outcome: "commit"}, img)
+			}()
+			hc.Before = nil
+			hc.Close()
+			if !P.M.Exists("db-journal") {
+				return "harness-error:no-hot-journal", nil
+			}
+		}
 		clientOwner := uint64(21)
 		// Monitor inside every page write of N.
 		e.Observer = func(site string, obj any, a int64, internal bool) {
@@ -754,8 +784,8 @@ func harnessB(cfgJSON json.RawMessage) sched.Harness {
 		}
 		var aErr string
 		e.Go("A", func(th *sched.Thread) {
-			if cfg.Inner == "apply" || cfg.Inner == "unhalt" {
-				// a reader on the replica
+			if cfg.Inner == "apply" || cfg.Inner == "unhalt" || cfg.Inner == "export-hot" {
+				// a reader on the replica (export-hot: on the primary)
 				rc := pager.NewConn(N.M, "db", clientOwner, ps)
 				rc.Busy = func() bool { time.Sleep(200 * time.Microsecond); return false }
 				defer rc.Close()
@@ -794,6 +824,10 @@ func harnessB(cfgJSON json.RawMessage) sched.Harness {
 			defer cancel()
 			if cfg.Inner == "recover" {
 				_ = N.Store.Recover(ctx)
+				return
+			}
+			if cfg.Inner == "export-hot" {
+				_, _ = db.Export(ctx, io.Discard)
 				return
 			}
 			if cfg.Inner == "unhalt" {
@@ -863,7 +897,7 @@ func TestCheck(t *testing.T) {
 	}
 	var bInfo []any
 	bExec := 0
-	for _, cfg := range []BCfg{{WAL: false, Inner: "recover"}, {WAL: true, Inner: "recover"}, {WAL: false, Inner: "apply"}, {WAL: true, Inner: "apply"}, {WAL: true, Inner: "unhalt"}} {
+	for _, cfg := range []BCfg{{WAL: false, Inner: "recover"}, {WAL: true, Inner: "recover"}, {WAL: false, Inner: "apply"}, {WAL: true, Inner: "apply"}, {WAL: true, Inner: "unhalt"}, {WAL: false, Inner: "export-hot"}} {
 		var tot sched.Totals
 		sched.Distributed(t, run, pool, reg, "c11b", cfg, bound, 3, 5*time.Minute, &tot)
 		bExec += tot.Executions
